@@ -20,6 +20,7 @@ STRATA = [
     ("unsat-constructed", 150, 2500),
     ("planted", 40, 600),
     ("mid", 400, 6000),
+    ("cp-cnf", 400, 6000),
     ("default-mode", 12, 120),
     ("reduce", 0, 3),
     ("suite", 0, 1),
